@@ -385,6 +385,8 @@ def run_C16(tier, seed):
     # uniformly random strings of every length, with a random and with a plausible first byte (alone: it also judges time)
     raw = [{"op": "decode_raw", "len": ln, "fbmode": fm, "expect": "nopanic"} for ln in range(0, 1201 if not q else 700) for fm in (0, 1)]
     raw += [{"op": "decode_scale", "k": k, "expect": "nopanic"} for k in (16000, 32000)]      # ~1 MiB vs ~4 MiB, ~2 MiB vs ~8 MiB
+    # memory in proportion to the input: a full chunk of honest proofs around one proof with thousands of surplus rounds
+    raw += [{"op": "alloc_bound", "members": mm, "rounds": rr, "expect": "nopanic"} for (mm, rr) in ((255, 4096), (40, 20000))]
     rawst = stages.raw_cases_stage("C16", "random-strings", raw, seed)
     res = par(
         lambda: stages.cases_stage("C16", "MC_Codec", tier, seed, invariants="C15 Total"),
